@@ -214,9 +214,8 @@ func (m *WireMonitor) clientFrame(wl *wireLink, e *TapEvent, f *tunnelpb.ClientT
 		if st.halfClosed > 1 {
 			m.v("C13", "second-half-close", "link %d stream %d: half-close emitted %d times", wl.link.ID, id, st.halfClosed)
 		}
-		if st.reqRemaining > 0 {
-			m.v("C13", "half-close-inside-message", "link %d stream %d: half-close while %d bytes of a message are outstanding", wl.link.ID, id, st.reqRemaining)
-		}
+		// (a half-close after an incomplete message is what an application
+		// produces by calling CloseSend after a failed SendMsg; not judged)
 	case *tunnelpb.ClientToServer_Cancel:
 		st.cancels++
 		if st.cancels > 1 {
@@ -336,9 +335,8 @@ func (m *WireMonitor) serverFrame(wl *wireLink, e *TapEvent, f *tunnelpb.ServerT
 			// did the handler end the stream? (its scripted return was logged
 			// before this close was emitted)
 			st.closeOK = m.w.handlerReturnedBefore(st.tag, e.Seq)
-			if st.respRemaining > 0 && fr.CloseStream.GetStatus().GetCode() == 0 {
-				m.v("C13", "ok-close-inside-message", "link %d stream %d: OK close while %d bytes of a response message are outstanding", wl.link.ID, id, st.respRemaining)
-			}
+			// (an OK close after an incomplete message is what a handler
+			// produces by returning nil after a failed SendMsg; not judged)
 		}
 	case *tunnelpb.ServerToClient_WindowUpdate:
 		if st.rev == tunnelpb.ProtocolRevision_REVISION_ZERO {
